@@ -15,8 +15,12 @@ import Tickit.Model.RBFlush
   * the toplevel instance (`src/tickit.c`: `tickit_build` for a given terminal, `tickit_get_rootwin`,
     `tickit_get_term`, `tickit_ref/unref` → `tickit_destroy`, `tickit_watch_later`, `tickit_watch_timer_after_msec`,
     `tickit_watch_cancel`, `tickit_tick` with the default event loop: `tickit_evloop_invoke_timers`, the watch on the
-    terminal's input and `on_term_timeout`).  The application keeps its own reference to the root window and to the
-    terminal it obtains from the instance.  The deferred `_flush_fn` calls the root window queues on the instance
+    terminal's input and `on_term_timeout`).  A watch, and a handler bound on the terminal, may register further
+    watches while it runs (`TAct.timerAt`: `tickit_watch_timer_at_tv` for an instant of the harness's clock, possibly
+    one that has passed - the new entry then stands in front of the queue the loop of `tickit_evloop_invoke_timers` is
+    working on; `TAct.later`: `tickit_watch_later`): `invokeTimers` is that loop, which unlinks the head before it
+    invokes it and looks at the queue again afterwards.  The application keeps its own reference to the root window
+    and to the terminal it obtains from the instance.  The deferred `_flush_fn` calls the root window queues on the instance
     (`_request_later_processing`) are not tracked: the harness flushes the root window before every tick, and
     handlers in histories with an instance make no restacking requests, so that those calls find nothing to
     reorder (the model would be wrong about the window order otherwise).
@@ -34,6 +38,8 @@ inductive TAct where
   | win (a : Act)
   | tunref                    -- tickit_term_unref
   | tref                      -- tickit_term_ref
+  | timerAt (at_ : Int)       -- tickit_watch_timer_at_tv(t, <at_ ms of the harness's clock>, …) of a watch without actions
+  | later                     -- tickit_watch_later(t, …) of a watch without actions
 deriving Repr, Inhabited
 
 /-- Whose binding on the terminal: the three of the root window (`tickit_window_new_root2`), or the k-th of the
@@ -120,6 +126,7 @@ inductive XOp where
   | iref | iunref                                        -- tickit_ref / tickit_unref
   | ilater (acts : List TAct)                            -- tickit_watch_later
   | itimer (ms : Int) (acts : List TAct)                 -- tickit_watch_timer_after_msec
+  | itimerat (at_ : Int) (acts : List TAct)              -- tickit_watch_timer_at_tv (an instant of the harness's clock, past or future)
   | icancel (k : Nat)                                    -- tickit_watch_cancel of the k-th watch
   | itick (toks : List Tok)                              -- bytes into the pipe, flush, tickit_tick(NOHANG|NOSETUP)
   | mresize (lines cols : Int)                           -- tickit_mockterm_resize
@@ -218,6 +225,22 @@ def termUnrefI (top : Top) : Out Top := do
   let st ← termUnref top.st
   pure ({ top with st := st }).sync
 
+def instHeld (top : Top) : Bool :=
+  match top.inst with
+  | some i => !i.freed && i.appRefs > 0
+  | none => false
+
+def setInst (top : Top) (f : Inst → Inst) : Top := { top with inst := top.inst.map f }
+
+/-- The harness's table of behaviour records for watches (`MAXB` of harness/life.c): a registration beyond it is
+    skipped, from an operation as from a callback. -/
+def watchCap : Nat := 64
+
+/-- `tickit_watch_timer_at_tv`: the queue is kept ordered by time, a new entry goes behind the entries of the same
+    time (`while(*prevp && !timercmp(&(*prevp)->timer.at, at, >)) prevp = &(*prevp)->next`). -/
+def insertTimer (timers : List (Int × WItem)) (at_ : Int) (w : WItem) : List (Int × WItem) :=
+  timers.takeWhile (fun e => e.1 ≤ at_) ++ [(at_, w)] ++ timers.dropWhile (fun e => e.1 ≤ at_)
+
 def tAct (cfg : Cfg) (top : Top) : TAct → Out Top
   | .win a =>
     match simpleOp cfg top.st a none with
@@ -233,6 +256,15 @@ def tAct (cfg : Cfg) (top : Top) : TAct → Out Top
   | .tref =>
     if heldT top.st then
       pure { top with st := { top.st with term := { top.st.term with appRefs := top.st.term.appRefs + 1, refcount := top.st.term.refcount + 1 } } }
+    else pure top
+  | .timerAt at_ =>
+    -- a callback registers a timer (for an instant that may lie in the past: it then stands in front of the queue)
+    if instHeld top && decide ((top.inst.getD {}).nW < watchCap) then
+      pure (setInst top (fun i => { i with timers := insertTimer i.timers at_ (.app i.nW []), nW := i.nW + 1 }))
+    else pure top
+  | .later =>
+    if instHeld top && decide ((top.inst.getD {}).nW < watchCap) then
+      pure (setInst top (fun i => { i with laters := i.laters ++ [.app i.nW []], nW := i.nW + 1 }))
     else pure top
 
 /-- `run_events_whilefalse(tt, ev, info)`: the list is walked as it was on entry; entries unbound meanwhile are
@@ -439,13 +471,6 @@ def termSetSize (top : Top) (lines cols : Int) : Out Top :=
 
 /-! ## the toplevel instance -/
 
-def instHeld (top : Top) : Bool :=
-  match top.inst with
-  | some i => !i.freed && i.appRefs > 0
-  | none => false
-
-def setInst (top : Top) (f : Inst → Inst) : Top := { top with inst := top.inst.map f }
-
 /-- `tickit_destroy`: the root window and the terminal are released first, then the watches. -/
 def instDestroy (tc : TCfg) (top : Top) : Out Top := do
   let top ← if rootAlive top.st then do
@@ -474,13 +499,32 @@ def onTermTimeout (cfg : Cfg) (top : Top) : Out Top := do
   let msec := if msec = 0 then -1 else msec
   if msec > -1 then
     let at_ := top.now + msec
-    pure (setInst top (fun i =>
-      { i with timers := i.timers.takeWhile (fun e => e.1 ≤ at_) ++ [(at_, .termTimeout)] ++ i.timers.dropWhile (fun e => e.1 ≤ at_) }))
+    pure (setInst top (fun i => { i with timers := insertTimer i.timers at_ .termTimeout }))
   else pure top
 
 def fireItem (cfg : Cfg) (timer : Bool) (top : Top) : WItem → Out Top
   | .app idx acts => runWatch cfg top (if timer then s!"M{idx}" else s!"L{idx}") acts
   | .termTimeout => onTermTimeout cfg top
+
+/-- What bounds the loop of `tickit_evloop_invoke_timers`: the timers that are due, and the registrations the
+    harness's table still takes (a callback may register a timer that is due at once). -/
+def Top.pot (top : Top) : Nat :=
+  match top.inst with
+  | some i => (i.timers.filter (fun e => decide (e.1 ≤ top.now))).length + (watchCap - i.nW)
+  | none => 0
+
+/-- The `while(t->timers)` loop of `tickit_evloop_invoke_timers`: the head of the queue, if it is due, is unlinked, then
+    invoked, then freed; the loop looks at the queue again, as the callback has left it. -/
+def invokeTimers (cfg : Cfg) : Nat → Top → Out Top
+  | 0, _ => .fuel
+  | fuel + 1, top =>
+    match (top.inst.getD {}).timers with
+    | [] => pure top
+    | e :: rest =>
+      if e.1 > top.now then pure top
+      else do
+        let top ← fireItem cfg true (setInst top (fun i => { i with timers := rest })) e.2
+        invokeTimers cfg fuel top
 
 def xstepCore (tc : TCfg) (top : Top) : XOp → Out (Top × String) :=
   let cfg := tc.base
@@ -610,15 +654,16 @@ def xstepCore (tc : TCfg) (top : Top) : XOp → Out (Top × String) :=
     else pure (setInst top (fun i => { i with appRefs := i.appRefs + 1, refcount := i.refcount + 1 }), "ok")
   | .iunref => if !instHeld top then pure (top, "skip") else okT (instUnref tc top)
   | .ilater acts =>
-    if !instHeld top then pure (top, "skip")
+    if !instHeld top || decide ((top.inst.getD {}).nW ≥ watchCap) then pure (top, "skip")
     else pure (setInst top (fun i => { i with laters := i.laters ++ [.app i.nW acts], nW := i.nW + 1 }), "ok")
   | .itimer ms acts =>
-    if !instHeld top then pure (top, "skip")
+    if !instHeld top || decide ((top.inst.getD {}).nW ≥ watchCap) then pure (top, "skip")
     else
       let at_ := top.now + ms
-      pure (setInst top (fun i => { i with
-        timers := i.timers.takeWhile (fun e => e.1 ≤ at_) ++ [(at_, .app i.nW acts)] ++ i.timers.dropWhile (fun e => e.1 ≤ at_),
-        nW := i.nW + 1 }), "ok")
+      pure (setInst top (fun i => { i with timers := insertTimer i.timers at_ (.app i.nW acts), nW := i.nW + 1 }), "ok")
+  | .itimerat at_ acts =>
+    if !instHeld top || decide ((top.inst.getD {}).nW ≥ watchCap) then pure (top, "skip")
+    else pure (setInst top (fun i => { i with timers := insertTimer i.timers at_ (.app i.nW acts), nW := i.nW + 1 }), "ok")
   | .icancel k =>
     let isK : WItem → Bool
       | .app idx _ => idx = k
@@ -638,13 +683,12 @@ def xstepCore (tc : TCfg) (top : Top) : XOp → Out (Top × String) :=
             let st ← liftT top.st (flushT top.st.tree)
             pure { top with st := st }
           else pure top
-        -- tickit_evloop_invoke_timers: the later queue is detached, the due timers run, then the detached queue
+        -- tickit_evloop_invoke_timers: the later queue is detached, the timers run as long as the head of the queue is
+        -- due (a callback may put a new head there), then the detached queue
         let i := top.inst.getD {}
         let later := i.laters
-        let due := i.timers.takeWhile (fun e => e.1 ≤ top.now)
-        let now := top.now
-        let top := setInst top (fun i => { i with laters := [], timers := i.timers.dropWhile (fun e => e.1 ≤ now) })
-        let top ← due.foldlM (fun top e => fireItem cfg true top e.2) top
+        let top := setInst top (fun i => { i with laters := [] })
+        let top ← invokeTimers cfg (top.pot + 1) top
         let top ← later.foldlM (fireItem cfg false) top
         if toks.isEmpty then pure top
         else do
